@@ -10,7 +10,11 @@ from common import enc, dec
 
 LEVEL = "proof"
 THEOREMS = ["Mistune.fn_notes_eq", "Mistune.fn_notes_nodup", "Mistune.fn_refs_sound", "Mistune.fn_refs_keys",
-            "Mistune.fn_items_referenced", "Mistune.fn_items_numbers"]
+            "Mistune.fn_items_referenced", "Mistune.fn_items_numbers",
+            # refinement: the CONCRETE model's footnote handlers are steps of the abstract numbering machine (parse_inline_footnote = fnRef on env["footnotes"]; the inline pass = fnRun over
+            # the handler calls; md_footnotes_hook emits fnItems of the notes, one section iff non-empty): parseDoc_footnotes for every source string of a footnotes configuration
+            "Mistune.Model.parseInlineFootnote_step", "Mistune.Model.parseInlineFootnote_inImage", "Mistune.Model.mdFootnotesHook_items", "Mistune.Model.renderState_notes",
+            "Mistune.Model.inlineParseEnv_notes", "Mistune.Model.blockParse_no_footnotes", "Mistune.Model.doc_footnotes", "Mistune.Model.parseDoc_footnotes"]
 
 KEYS = ["1", "a", "A", "note", "Note  x", "b c", "ß", "n-2", "", "x]", "q"]
 BODY = ["alpha", "beta *em*", "see [^{k}] inside", "`code`", "word [link](u)", "tail"]
